@@ -6,7 +6,7 @@ import json, os, re, shutil, sys, glob
 
 OUT = "/verif/seeded"
 rows = []
-for vj in sorted(glob.glob("/tmp/val/C*-m*.json")) + sorted(glob.glob("/tmp/val/R2C*-m*.json")) + sorted(glob.glob("/tmp/val/R3C*-m*.json")) + sorted(glob.glob("/tmp/val/R4C*-m*.json")) + sorted(glob.glob("/tmp/val/R5C*-m*.json")) + sorted(glob.glob("/tmp/val/R6C*-m*.json")) + sorted(glob.glob("/tmp/val/R7C*-m*.json")):
+for vj in sorted(glob.glob("/tmp/val/C*-m*.json")) + sorted(glob.glob("/tmp/val/R2C*-m*.json")) + sorted(glob.glob("/tmp/val/R3C*-m*.json")) + sorted(glob.glob("/tmp/val/R4C*-m*.json")) + sorted(glob.glob("/tmp/val/R5C*-m*.json")) + sorted(glob.glob("/tmp/val/R6C*-m*.json")) + sorted(glob.glob("/tmp/val/R7C*-m*.json")) + sorted(glob.glob("/tmp/val/R8C*-m*.json")):
     tag = os.path.basename(vj)[:-5]
     d = json.load(open(vj))
     cand = d["candidate"]
@@ -16,7 +16,8 @@ for vj in sorted(glob.glob("/tmp/val/C*-m*.json")) + sorted(glob.glob("/tmp/val/
     round5 = tag.startswith("R5")
     round6 = tag.startswith("R6")
     round7 = tag.startswith("R7")
-    prop, m = (tag[2:] if (round2 or round3 or round4 or round5 or round6 or round7) else tag).split("-")
+    round8 = tag.startswith("R8")
+    prop, m = (tag[2:] if (round2 or round3 or round4 or round5 or round6 or round7 or round8) else tag).split("-")
     ok = (d.get("demo_pristine_rc") == 0 and d.get("applies") and d.get("build_rc") == 0
           and d.get("tests", {}).get("failed") == 0 and d.get("tests", {}).get("rc") == 0 and (d.get("demo_mutated_rc") or 0) != 0)
     if not ok:
@@ -37,6 +38,8 @@ for vj in sorted(glob.glob("/tmp/val/C*-m*.json")) + sorted(glob.glob("/tmp/val/
     if round7:
         # round 7: C04 and C07 had no round 6
         idx += 12 if prop not in ("C04", "C07") else 10
+    if round8:
+        idx += 14
     sid = "%s-%d" % (prop, idx) if not (prop == "C09" and idx == 1) else "C09-2"
     if prop == "C09" and idx >= 2:
         sid = "C09-%d" % (idx + 1)
@@ -71,7 +74,7 @@ for vj in sorted(glob.glob("/tmp/val/C*-m*.json")) + sorted(glob.glob("/tmp/val/
             }
     meta = {
         "property": prop,
-        "source": "independent sub-agent given only the property text and a scratch worktree of /repo (nothing from /verif)" + ("; round 2: asked for less direct mechanisms than a swapped intrinsic, a dropped assert or a re-bound table row" if round2 else "") + ("; round 3: asked to avoid every mechanism of rounds 1 and 2 (edges, NaN/zero handling, casts, offsets, build profiles, environment, two-call interactions, ...)" if round3 else "") + ("; round 4: asked to avoid every mechanism of rounds 1 to 3" if round4 else "") + ("; round 5 (nine properties): asked to avoid every mechanism of rounds 1 to 4" if round5 else "") + ("; round 6 (nine properties): asked to avoid every mechanism of rounds 1 to 5" if round6 else "") + ("; round 7 (nine properties): asked to avoid every mechanism of rounds 1 to 6" if round7 else ""),
+        "source": "independent sub-agent given only the property text and a scratch worktree of /repo (nothing from /verif)" + ("; round 2: asked for less direct mechanisms than a swapped intrinsic, a dropped assert or a re-bound table row" if round2 else "") + ("; round 3: asked to avoid every mechanism of rounds 1 and 2 (edges, NaN/zero handling, casts, offsets, build profiles, environment, two-call interactions, ...)" if round3 else "") + ("; round 4: asked to avoid every mechanism of rounds 1 to 3" if round4 else "") + ("; round 5 (nine properties): asked to avoid every mechanism of rounds 1 to 4" if round5 else "") + ("; round 6 (nine properties): asked to avoid every mechanism of rounds 1 to 5" if round6 else "") + ("; round 7 (nine properties): asked to avoid every mechanism of rounds 1 to 6" if round7 else "") + ("; round 8 (six properties, short time limit): asked to avoid every mechanism of rounds 1 to 7" if round8 else ""),
         "needs_to_manifest": needs,
         "what_i_ran": [
             "tools/validate_seed.sh: fresh scratch worktree of /repo; demo/run.sh on the pristine tree: exit %s" % d.get("demo_pristine_rc"),
